@@ -233,8 +233,11 @@ def load_known_findings():
 
 def regenerate_tables(ctx):
     import gen_tables
+    import gen_schemas
     with BuildLock():
         changed = gen_tables.write_all(REPO, os.path.join(LEAN, "KmipModel", "Gen"))
+        # the translator of the structure codec: read()/write() of every Struct class -> Gen/SchemasGen.lean
+        changed = gen_schemas.write_all(REPO, os.path.join(LEAN, "KmipModel", "Gen")) or changed
     return changed
 
 
